@@ -2,6 +2,7 @@
 //! Drives the REAL `SrtpSession` / `SrtpContext` / `RtpHeader`, three-way against the Lean model
 //! (byte-exact, incl. AES-CM, HMAC-SHA1 and AES-GCM computed in Lean) and `webrtc-srtp`.
 pub mod script;
+pub mod ref3711;
 use crate::{Args, Rng, Run, hex, unhex};
 use script::*;
 use bytes::BytesMut;
@@ -84,7 +85,9 @@ fn kdf_cases(run: &mut Run, rng: &mut Rng, n: usize) {
                 let r0_ = rng.next();
                 let idx = *rng.pick(&[0u32, 1, 0x7fff_ffff, r0_ as u32 & 0x7fff_ffff]);
                 let iv = if prof == "gcm" { "-".to_string() } else { hex(&c.verif_build_iv(seq, roc)) };
-                let out = format!("{iv} {} {}", hex(&c.verif_build_gcm_nonce(seq, roc)), hex(&c.verif_build_gcm_rtcp_nonce(idx)));
+                // the AES-CM SRTCP IV is built inline in `cipher_rtcp`: compare its first keystream block
+                let rks = if prof == "gcm" { "-".to_string() } else { let mut z = [0u8; 24]; c.verif_cipher_rtcp(&mut z, idx); hex(&z[8..]) };
+                let out = format!("{iv} {} {} {rks}", hex(&c.verif_build_gcm_nonce(seq, roc)), hex(&c.verif_build_gcm_rtcp_nonce(idx)));
                 run.case("iv", &format!("{prof} {} {} {ssrc} {seq} {roc} {idx}", hex(&mk), hex(&ms)), &out, true);
             }
         }
@@ -183,7 +186,10 @@ fn roc_roundtrip(run: &mut Run, pair: &mut RocPair, roc: u32, last: u16, seq: u1
     let pkt = spec.packet();
     pair.tx.verif_set_state(v, Some(seq), 0);
     let mut out = vec![0u8; pair.tx.protected_rtp_len(&pkt)];
-    if pair.tx.protect(&pkt, &mut out).is_err() { return 0; }
+    if let Err(e) = pair.tx.protect(&pkt, &mut out) {
+        run.fail(&format!("roc:protect-failed:{}", pair.prof), &format!("rocrt {} {roc} {last} {seq}", pair.prof), &format!("sender context at ROC {v}: protect → {e}"));
+        return 0;
+    }
     pair.rx.verif_set_state(roc, Some(last), 0);
     let res = SrtpPacket::parse(BytesMut::from(&out[..])).map_err(|e| e.to_string())
         .and_then(|p| pair.rx.unprotect(p).map_err(|e| e.to_string()));
@@ -369,7 +375,8 @@ fn rtcp_packet(rng: &mut Rng, ssrc: u32, len: usize) -> Vec<u8> {
 #[derive(Clone, Copy, PartialEq)]
 enum Expect { Sync, Nothing }
 
-struct Case { ops: Vec<Op>, expect: Expect, kind: &'static str }
+/// `three`: mirror on the `webrtc-srtp` shadow (only where it can follow: no preset state, no eviction)
+struct Case { ops: Vec<Op>, expect: Expect, kind: &'static str, three: bool }
 
 /// `truth[slot]` = the sender's true 48-bit index of the RTP packet in that slot, reconstructed from
 /// the script alone (never from the implementation): per (session, SSRC) the first packet has index
@@ -386,7 +393,9 @@ fn truth_from_ops(ops: &[Op]) -> Vec<Option<u64>> {
                 last.insert(k, idx);
                 truth.push(Some(idx));
             }
-            Op::ProtectRtcp(..) => truth.push(None),
+            Op::ProtectRtcp(..) | Op::ExtRtcp(..) => truth.push(None),
+            Op::ExtRtp(_, roc, p) => truth.push(Some(((*roc as u64) << 16) | p.seq as u64)),
+            Op::SetState(s, true, ssrc, roc, Some(l), _) => { last.insert((*s, *ssrc), ((*roc as u64) << 16) | *l as u64); }
             _ => {}
         }
     }
@@ -396,7 +405,8 @@ fn truth_from_ops(ops: &[Op]) -> Vec<Option<u64>> {
 const WINDOW: i64 = 32767;
 
 fn emit(run: &mut Run, stream: &str, c: &Case) {
-    let three = c.expect == Expect::Sync;
+    let three = c.three;
+    let sync = c.expect == Expect::Sync;
     let mut w = World::new(three);
     let truth = truth_from_ops(&c.ops);
     let input = script_text(&c.ops);
@@ -414,9 +424,9 @@ fn emit(run: &mut Run, stream: &str, c: &Case) {
         if let Op::UnprotectRtp(s, Src::Slot(k)) = op {
             if let (Some(Some(idx)), Some(Some(p))) = (truth.get(*k), w.slot_pkt.get(*k)) {
                 let kk = (*s, p.header.ssrc);
-                expect_ok = three && match high.get(&kk) { None => *idx < 65536, Some(h) => (*h as i64 - *idx as i64).abs() <= WINDOW };
+                expect_ok = sync && match high.get(&kk) { None => *idx < 65536, Some(h) => (*h as i64 - *idx as i64).abs() <= WINDOW };
                 // the reference is consulted only where BOTH algorithms are inside their window
-                mirror = expect_ok && match ref_last.get(&kk) { None => *idx < 65536, Some(h) => (*h as i64 - *idx as i64).abs() <= WINDOW };
+                mirror = three && expect_ok && match ref_last.get(&kk) { None => *idx < 65536, Some(h) => (*h as i64 - *idx as i64).abs() <= WINDOW };
                 key = Some((kk, *idx));
             } else { mirror = false; }
         } else if let Op::UnprotectRtp(..) = op { mirror = false; }
@@ -426,6 +436,7 @@ fn emit(run: &mut Run, stream: &str, c: &Case) {
             if mirror { ref_last.insert(kk, idx); }
         }
         if key.is_some() && !mirror && three { run.count("ref_skipped_outside_its_window"); }
+        if let Op::SetState(s, false, ssrc, roc, Some(l), _) = op { high.insert((*s, *ssrc), ((*roc as u64) << 16) | *l as u64); }
         match (op, &r) {
             (Op::ProtectRtp(s, spec), Res::Bytes(b)) => {
                 run.count(&format!("protect_rtp:{}", w.prof[*s]));
@@ -434,6 +445,13 @@ fn emit(run: &mut Run, stream: &str, c: &Case) {
                 let p = spec.packet();
                 let want = hook::header_encoded_len(&p.header) + p.payload.len() + p.padding_len as usize + tag_len(&w.prof[*s]);
                 if b.len() != want { run.fail(&format!("len:protected-rtp-length:{}", w.prof[*s]), &case, &format!("op {i}: {} != {want}", b.len())); }
+                // second independent sender (RFC 3711 / 7714 from the text), under the sender's true ROC
+                if let (true, Some(Some(idx))) = (sync, truth.get(w.slots.len() - 1)) {
+                    let k = &w.keys[*s];
+                    let r = ref3711::protect_rtp(&w.prof[*s], &k.0, &k.1, w.slot_plain.last().unwrap(), (*idx >> 16) as u32);
+                    run.count("ref3711_rtp_compared");
+                    if r[..] != b[..] { run.fail(&format!("interop:ref3711-rtp-protect-bytes-differ:{}:{}", w.prof[*s], c.kind), &case, &format!("op {i}: ours {} rfc {}", hex(b), hex(&r))); }
+                }
             }
             (Op::ProtectRtp(_, _), Res::Err(e)) => { run.count(&format!("protect_rtp_err:{e}")); }
             (Op::UnprotectRtp(s, src), r) => {
@@ -453,6 +471,17 @@ fn emit(run: &mut Run, stream: &str, c: &Case) {
                 run.count(&format!("protect_rtcp:{}", w.prof[*s]));
                 let want = w.slot_plain.last().unwrap().len() + 4 + rtcp_tag_len(&w.prof[*s]);
                 if b.len() != want { run.fail(&format!("len:protected-rtcp-length:{}", w.prof[*s]), &case, &format!("op {i}: {} != {want}", b.len())); }
+                if sync {
+                    let plain = w.slot_plain.last().unwrap();
+                    let ssrc = u32::from_be_bytes([plain[4], plain[5], plain[6], plain[7]]);
+                    if let Some(st) = w.sess[*s].verif_tx_snapshot().iter().find(|x| x.0 == ssrc) {
+                        let k = &w.keys[*s];
+                        // E = 1 for the encrypting profiles, E = 0 (clear) for the NULL cipher
+                        let r = ref3711::protect_rtcp(&w.prof[*s], &k.0, &k.1, plain, st.3, w.prof[*s] != "null");
+                        run.count("ref3711_rtcp_compared");
+                        if r[..] != b[..] { run.fail(&format!("interop:ref3711-rtcp-protect-bytes-differ:{}:{}", w.prof[*s], c.kind), &case, &format!("op {i}: ours {} rfc {}", hex(b), hex(&r))); }
+                    }
+                }
             }
             (Op::UnprotectRtcp(s, src), r) => {
                 run.count(&format!("unprotect_rtcp:{}:{}", w.prof[*s], match r { Res::Rtcp(_) => "ok", Res::Err(e) => e, _ => "?" }));
@@ -476,6 +505,7 @@ fn emit(run: &mut Run, stream: &str, c: &Case) {
     let mut seen = std::collections::BTreeSet::new();
     for (sig, detail) in &w.interop { if seen.insert(sig.clone()) { run.fail(sig, &case, detail); } }
     if three { run.count("three_way_cases"); }
+    run.count(if sync { "cases_with_roundtrip_expectation" } else { "cases_model_only" });
 }
 
 fn size_class(n: usize) -> &'static str {
@@ -484,8 +514,10 @@ fn size_class(n: usize) -> &'static str {
 
 fn new_pair(rng: &mut Rng, i: usize, prof: &str) -> Vec<Op> {
     let (mk, ms) = keys(rng, i, prof);
-    // session 0 = sender, session 1 = receiver (same keys both ways)
-    vec![Op::New(prof.into(), mk.clone(), ms.clone(), mk.clone(), ms.clone()), Op::New(prof.into(), mk.clone(), ms.clone(), mk, ms)]
+    // session 0 = sender, session 1 = receiver. The two directions use DIFFERENT keying material
+    // (sender.tx = receiver.rx ≠ sender.rx = receiver.tx), so a tx/rx mix-up inside SrtpSession shows.
+    let (bk, bs) = (mk.iter().map(|x| x ^ 0x5a).collect::<Vec<u8>>(), ms.iter().map(|x| x ^ 0xa5).collect::<Vec<u8>>());
+    vec![Op::New(prof.into(), mk.clone(), ms.clone(), bk.clone(), bs.clone()), Op::New(prof.into(), bk, bs, mk, ms)]
 }
 
 /// header shapes × payload sizes × profiles × keys: one RTP packet, one RTCP packet
@@ -507,7 +539,7 @@ fn shape_cases(run: &mut Run, rng: &mut Rng, thorough: bool) {
                 ops.push(Op::ProtectRtcp(0, Src::Lit(rtcp_packet(rng, ssrc, rl))));
                 ops.push(Op::UnprotectRtcp(1, Src::Slot(1)));
                 ops.push(Op::Snap(0)); ops.push(Op::Snap(1));
-                emit(run, "sess", &Case { ops, expect: Expect::Sync, kind: "shape" });
+                emit(run, "sess", &Case { ops, expect: Expect::Sync, kind: "shape", three: true });
             }
         }
     }
@@ -529,7 +561,7 @@ fn history_case(rng: &mut Rng, i: usize, prof: &str) -> Case {
     let mut high: Vec<Option<u64>> = vec![None; nssrc];
     for _ in 0..n {
         let k = rng.below(nssrc as u64) as usize;
-        let plen = *rng.pick(&[0usize, 1, 3, 16, 20, 40]);
+        let plen = *rng.pick(&[0usize, 1, 3, 16, 20, 40, 160, 700, 1200]);
         ops.push(Op::ProtectRtp(0, shape(rng, (idx[k] & 0xffff) as u16, ssrcs[k], plen)));
         let me = (slot, k, idx[k]);
         slot += 1;
@@ -567,7 +599,7 @@ fn history_case(rng: &mut Rng, i: usize, prof: &str) -> Case {
         if rng.chance(1, 8) { ops.push(Op::Tick(rng.range(1, 30))); }
     }
     ops.push(Op::Snap(0)); ops.push(Op::Snap(1));
-    Case { ops, expect: Expect::Sync, kind: "history" }
+    Case { ops, expect: Expect::Sync, kind: "history", three: true }
 }
 
 /// directed boundary histories: first packet at 0xFFFF then wrap; distance exactly 32767 both ways;
@@ -589,7 +621,101 @@ fn boundary_cases(run: &mut Run, rng: &mut Rng) {
             for i in &order { ops.push(Op::ProtectRtp(0, PktSpec::simple((*i & 0xffff) as u16, 77, vec![*i as u8, 2, 3]))); }
             for i in h { let k = order.iter().position(|x| x == i).unwrap(); ops.push(Op::UnprotectRtp(1, Src::Slot(k))); }
             ops.push(Op::Snap(0)); ops.push(Op::Snap(1));
-            emit(run, "sess", &Case { ops, expect: Expect::Sync, kind: "boundary" });
+            emit(run, "sess", &Case { ops, expect: Expect::Sync, kind: "boundary", three: true });
+        }
+    }
+}
+
+
+/// Packets only ANOTHER implementation would emit (the independent `ref3711` sender holding the
+/// receiver's rx keys): SRTCP with the E flag clear, large SRTCP indices, explicit rollover counters,
+/// the NULL-cipher profile. rustrtc must accept and decode every one of them to the original.
+fn ext_cases(run: &mut Run, rng: &mut Rng, thorough: bool) {
+    let reps = if thorough { 12 } else { 3 };
+    for (pi, prof) in PROFILES.iter().enumerate() {
+        for rep in 0..reps {
+            let mut ops = new_pair(rng, pi + rep, prof);
+            let ssrc = rng.next() as u32;
+            let mut slot = 0;
+            // RTP: a stream walking over rollovers, the sender tells its ROC explicitly
+            let mut idx: u64 = *rng.pick(&[0u64, 65530, 40000]);
+            for _ in 0..rng.range(3, 8) {
+                let pl = rng.below(40) as usize;
+                ops.push(Op::ExtRtp(0, (idx >> 16) as u32, shape(rng, (idx & 0xffff) as u16, ssrc, pl)));
+                ops.push(Op::UnprotectRtp(1, Src::Slot(slot))); slot += 1;
+                idx += *rng.pick(&[1u64, 7, 3000, 30000, 32767]);
+            }
+            // RTCP: E = 1 and E = 0 (GCM: E = 1 only — RFC 7714's unencrypted form is a different construction), any index
+            for index in [1u32, 2, 0xffff, 0x10000, 0x10001, 0x00ab_cdef, 0x7fff_fffe, 0x7fff_ffff, rng.next() as u32 & 0x7fff_ffff] {
+                let l = *rng.pick(&[8usize, 12, 28, 60]);
+                let e = *prof == "gcm" || rng.chance(1, 2);
+                ops.push(Op::ExtRtcp(0, e, index, rtcp_packet(rng, ssrc, l)));
+                ops.push(Op::UnprotectRtcp(1, Src::Slot(slot))); slot += 1;
+            }
+            ops.push(Op::Snap(1));
+            emit(run, "sess", &Case { ops, expect: Expect::Sync, kind: "foreign-sender", three: *prof != "gcm" });
+        }
+    }
+}
+
+/// rustrtc as sender with preset large SRTCP indices / rollover counters (reached through the hook,
+/// not by sending 2^31 packets): bytes must equal the independent sender's, the receiver must follow.
+fn bigstate_cases(run: &mut Run, rng: &mut Rng, thorough: bool) {
+    let reps = if thorough { 8 } else { 2 };
+    for (pi, prof) in PROFILES.iter().enumerate() {
+        for rep in 0..reps {
+            for (roc, idx) in [(0u32, 0xfffeu32), (1, 0xffff), (0xffff, 0x00ff_ffff), (0x7fff_ffff, 0x3fff_ffff), (0xffff_fff0, 0x7fff_fff0)] {
+                let mut ops = new_pair(rng, pi + rep, prof);
+                let ssrc = 0x4000 + rep as u32;
+                let seq0 = *rng.pick(&[5u16, 40000, 65530]);
+                // create both contexts with one packet each way, then preset their state
+                ops.push(Op::ProtectRtp(0, PktSpec::simple(seq0, ssrc, vec![1]))); ops.push(Op::UnprotectRtp(1, Src::Slot(0)));
+                ops.push(Op::ProtectRtcp(0, Src::Lit(rtcp_packet(rng, ssrc, 12)))); ops.push(Op::UnprotectRtcp(1, Src::Slot(1)));
+                ops.push(Op::SetState(0, true, ssrc, roc, Some(seq0), idx));
+                ops.push(Op::SetState(1, false, ssrc, roc, Some(seq0), idx.saturating_sub(3)));
+                let mut slot = 2;
+                let mut seq = seq0;
+                for _ in 0..4 {
+                    seq = seq.wrapping_add(*rng.pick(&[1u16, 20000, 32767]));
+                    ops.push(Op::ProtectRtp(0, shape(rng, seq, ssrc, 9))); ops.push(Op::UnprotectRtp(1, Src::Slot(slot))); slot += 1;
+                    ops.push(Op::ProtectRtcp(0, Src::Lit(rtcp_packet(rng, ssrc, 16)))); ops.push(Op::UnprotectRtcp(1, Src::Slot(slot))); slot += 1;
+                }
+                ops.push(Op::Snap(0)); ops.push(Op::Snap(1));
+                emit(run, "sess", &Case { ops, expect: Expect::Sync, kind: "preset-state", three: false });
+            }
+        }
+    }
+}
+
+/// MORE THAN 32 SSRCs with idle time (KNOWN FINDING, see known_findings.d/C04.json): stream G reaches
+/// ROC 1, 33 other streams exist, 61 s pass.
+/// `tx-evicted`: the sender first protects a packet of another stream (its idle tx context of G is evicted and
+///   with it the rollover counter), then resumes G — the receiver, which still holds ROC 1, rejects it.
+/// `rx-evicted`: the receiver first accepts a packet of another stream (evicts its context of G), then G resumes.
+/// `keep-tx`: G resumes FIRST after the idle time — `keep_ssrc` must save its context on both sides.
+fn many_ssrc_cases(run: &mut Run, rng: &mut Rng) {
+    for (pi, prof) in PROFILES.iter().enumerate() {
+        for kind in ["tx-evicted", "rx-evicted", "keep-ssrc"] {
+            let mut ops = new_pair(rng, pi, prof);
+            let g = 0x0a0b_0c0du32;
+            let mut slot = 0;
+            for k in 0..33u32 { ops.push(Op::ProtectRtp(0, PktSpec::simple(5, 0x2000 + k, vec![1, 2, 3]))); ops.push(Op::UnprotectRtp(1, Src::Slot(slot))); slot += 1; }
+            for seq in [65000u16, 65500, 100, 200] { ops.push(Op::ProtectRtp(0, PktSpec::simple(seq, g, vec![seq as u8, 2]))); ops.push(Op::UnprotectRtp(1, Src::Slot(slot))); slot += 1; }
+            ops.push(Op::Snap(0)); ops.push(Op::Snap(1));
+            ops.push(Op::Tick(61));
+            match kind {
+                "tx-evicted" => { ops.push(Op::ProtectRtp(0, PktSpec::simple(6, 0x2000, vec![9]))); slot += 1; }             // lost on the way
+                "rx-evicted" => {
+                    // only the receiver's context of G is that old: the sender used G 30 s ago (packet lost)
+                    ops.pop(); ops.push(Op::Tick(31)); ops.push(Op::ProtectRtp(0, PktSpec::simple(250, g, vec![8]))); slot += 1; ops.push(Op::Tick(30));
+                    ops.push(Op::ProtectRtp(0, PktSpec::simple(6, 0x2000, vec![9]))); ops.push(Op::UnprotectRtp(1, Src::Slot(slot))); slot += 1;
+                }
+                _ => {}
+            }
+            for seq in [300u16, 301] { ops.push(Op::ProtectRtp(0, PktSpec::simple(seq, g, vec![seq as u8, 7]))); ops.push(Op::UnprotectRtp(1, Src::Slot(slot))); slot += 1; }
+            ops.push(Op::Snap(0)); ops.push(Op::Snap(1));
+            let kind: &'static str = match kind { "tx-evicted" => "tx-evicted", "rx-evicted" => "rx-evicted", _ => "keep-ssrc" };
+            emit(run, "sess", &Case { ops, expect: Expect::Sync, kind, three: false });
         }
     }
 }
@@ -637,7 +763,7 @@ fn wild_case(rng: &mut Rng, i: usize, prof: &str) -> Case {
         }
     }
     ops.push(Op::Snap(0)); ops.push(Op::Snap(1));
-    Case { ops, expect: Expect::Nothing, kind: "wild" }
+    Case { ops, expect: Expect::Nothing, kind: "wild", three: false }
 }
 
 /// sessions with unusable keying material (too short) and over-long keys
@@ -648,7 +774,7 @@ fn badkey_cases(run: &mut Run, rng: &mut Rng) {
             let ops = vec![Op::New(prof.into(), mk.clone(), ms.clone(), mk.clone(), ms.clone()),
                 Op::ProtectRtp(0, PktSpec::simple(1, 9, vec![1, 2, 3])), Op::UnprotectRtp(0, Src::Slot(0)),
                 Op::ProtectRtcp(0, Src::Lit(vec![0x80, 201, 0, 1, 0, 0, 0, 9])), Op::UnprotectRtcp(0, Src::Slot(1)), Op::Snap(0)];
-            emit(run, "sessw", &Case { ops, expect: Expect::Nothing, kind: "badkey" });
+            emit(run, "sessw", &Case { ops, expect: Expect::Nothing, kind: "badkey", three: false });
         }
     }
 }
@@ -687,7 +813,7 @@ fn replay_script(s: &str, expect: Expect) {
     let mut run = Run::new("c04", "/tmp/vh-replay-c04");
     let (res, _) = run_script(&ops, false);
     println!("impl: {}", results_text(&res));
-    emit(&mut run, "sess", &Case { ops, expect, kind: "replay" });
+    emit(&mut run, "sess", &Case { ops, expect, kind: "replay", three: expect == Expect::Sync });
     print_fails(&run);
 }
 
@@ -702,6 +828,9 @@ pub fn run(args: &Args) {
     hdr_cases(&mut run, &mut rng, if t { 20000 } else { 3000 });
     shape_cases(&mut run, &mut rng, t);
     boundary_cases(&mut run, &mut rng);
+    ext_cases(&mut run, &mut rng, t);
+    bigstate_cases(&mut run, &mut rng, t);
+    many_ssrc_cases(&mut run, &mut rng);
     badkey_cases(&mut run, &mut rng);
     let nh = if t { 6000 } else { 700 };
     for i in 0..nh { let prof = PROFILES[i % 4]; let c = history_case(&mut rng, i, prof); emit(&mut run, "sess", &c); }
